@@ -47,6 +47,9 @@ pub enum Hints {
 pub struct PaymentSpec {
     /// preimage = 32 x this byte (payments of one scenario use distinct bytes)
     pub preimage: u8,
+    /// 0 = preimage is 32 x `preimage`; otherwise the last 16 bytes are this byte (more than 256 distinct payments)
+    #[serde(default)]
+    pub preimage_hi: u8,
     pub invoice_amount: Option<u64>,
     /// amount the sender declares for amountless invoices (TLV 33003)
     pub tlv_amount: u64,
@@ -70,7 +73,13 @@ impl Scenario {
 
 impl PaymentSpec {
     pub fn preimage_bytes(&self) -> [u8; 32] {
-        [self.preimage; 32]
+        let mut b = [self.preimage; 32];
+        if self.preimage_hi != 0 {
+            for x in b[16..].iter_mut() {
+                *x = self.preimage_hi;
+            }
+        }
+        b
     }
     pub fn hash(&self) -> [u8; 32] {
         sha256::Hash::hash(&self.preimage_bytes()).to_byte_array()
@@ -690,6 +699,7 @@ pub fn payment_strategy(p: &Profile, idx: usize) -> impl Strategy<Value = Paymen
         prop_oneof![4 => Just(1u8), 2 => Just(2u8), 1 => Just(3u8), 1 => Just(0u8)],
     )
         .prop_map(move |(a, t, r1, r2, h_plain, h_self, explicit_payee, recipient_ok, drain_parts)| PaymentSpec {
+            preimage_hi: 0,
             // sha256 of 32 x 0x04, 0x22 and 0xe3 share their first byte (0x9f): hashes that collide in a
             // truncated key/prefix show up as cross-talk between payments
             preimage: match (idx, t % 3 == 0) {
